@@ -1,4 +1,5 @@
 import Proofs.Observe.Causes
+import Proofs.Observe.StepSpec4
 /-!
 # C08 — Observe server: rising numbers, latest state sent, cancellation final, no leak
 
@@ -65,22 +66,39 @@ theorem C08_no_lost_wakeup {c : State} (h : Inv c) {t : Task} (ht : t ∈ c.task
     (t.phase = .fresh → t.runnable = true) :=
   ⟨(h.ok t ht).wTrig, (h.ok t ht).wOut, (h.ok t ht).wCancel, fun hf => ((h.ok t ht).wFresh hf).1⟩
 
-/-- **C08 (latest state sent).** Take any reachable state and any registered observation whose
-task is *not* in the ready queue (asyncio runs ready tasks, so this is where the task comes to
-rest).  Then either the resource's `render` is still running for it — and that render started at
-or after the last state change, or the change's trigger is pending and will be served when the
-render returns —, or the task is idle at `await servobs._trigger` with nothing pending and **the
-last notification it put on the pipe was rendered at or after the last state change**
-(`seen ≤ sentVer`; versions are what the renders sampled).  Earlier changes of a burst may have
-been coalesced; the last one never is. -/
+/-- **C08 (latest state sent).** Take any reachable state and any accepted observation whose task
+is *not* in the ready queue (asyncio runs ready tasks, so this is where the task comes to rest)
+and which has not ended — or has ended *by a successful last-marked notification* (`lastSent`: a
+2.xx response without Observe option put on the pipe by the notification loop after
+`trigger(..., is_last=True)`; see `C08_loop_end_kinds` for the other ways the loop ends).  Then
+* either the resource's `render` is still running for it — and that render started at or after
+  the last state change, or the change's trigger is pending and will be served when the render
+  returns —,
+* or the task is idle at `await servobs._trigger` with nothing pending and **the last
+  notification it put on the pipe was rendered at or after the last state change**
+  (`seen ≤ sentVer`; versions are what the renders sampled),
+* or the registration is over and **its final notification was rendered at or after the last
+  state change that reached the observation**: the rendering of a `render` call that started at
+  or after that change, or — when the last trigger handed over an explicit message — that very
+  message (whose version is the change's; a later trigger replaces an earlier pending one).
+Earlier changes of a burst may have been coalesced; the last one never is, also when it is the
+one that ends the registration.  (Before the `fix:` commit for C08 the third case was false: a
+rendering started *before* the last-marked change went out as the final response.) -/
 theorem C08_latest_state_sent {c : State} (h : Inv c) {t : Task} (ht : t ∈ c.tasks)
-    (hin : inSet t = true) (hq : t.runnable = false) :
+    (ho : t.observe = true) (ha : t.accepted = true)
+    (hlive : t.phase ≠ .done ∨ t.lastSent = true) (hq : t.runnable = false) :
     ((t.phase = .firstRender ∨ t.phase = .loopRender) ∧ t.renderOut = none ∧
         (t.seen ≤ t.renderVer ∨ t.trig.isSome = true)) ∨
-    (t.phase = .waitTrig ∧ t.trig = none ∧ t.seen ≤ t.sentVer) := by
+    (t.phase = .waitTrig ∧ t.trig = none ∧ t.seen ≤ t.sentVer) ∨
+    (t.phase = .done ∧ t.lastSent = true ∧ t.seen ≤ t.sentVer) := by
   have hok := h.ok t ht
-  simp only [inSet, Bool.and_eq_true, bne_iff_ne, ne_eq] at hin
-  have hcov := hok.cov hin.1.1 hin.1.2 hin.2
+  by_cases hdone : t.phase = .done
+  · have hl : t.lastSent = true := by
+      rcases hlive with hl | hl
+      · exact absurd hdone hl
+      · exact hl
+    exact Or.inr (Or.inr ⟨hdone, hl, (hok.fin hl).2.2 ha⟩)
+  have hcov := hok.cov ho ha hdone
   have hro : t.renderOut = none := by
     cases hr : t.renderOut with
     | none => rfl
@@ -92,10 +110,10 @@ theorem C08_latest_state_sent {c : State} (h : Inv c) {t : Task} (ht : t ∈ c.t
     | some v => have := hok.wTrig hp (by simp [htr]); rw [hq] at this; cases this
   cases hp : t.phase with
   | fresh => have := (hok.wFresh hp).1; rw [hq] at this; cases this
-  | done => exact absurd hp hin.2
-  | plainRender => exact absurd hp (hok.kind.1 hin.1.1)
+  | done => exact absurd hp hdone
+  | plainRender => exact absurd hp (hok.kind.1 ho)
   | waitTrig =>
-    right
+    right; left
     refine ⟨rfl, htr hp, ?_⟩
     rcases hcov with hc | hc | hc
     · simp [htr hp] at hc
@@ -115,6 +133,37 @@ theorem C08_latest_state_sent {c : State} (h : Inv c) {t : Task} (ht : t ∈ c.t
     · exact Or.inr hc
     · exact Or.inl hc.2
     · simp [hp] at hc
+
+/-- **C08 (every way the notification loop ends by itself).** Take any reachable state and a task
+that is in its notification loop (awaiting the trigger, or woken after a render) and has not been
+cancelled.  If its next step ends it, then
+* either it ended by a successful last-marked notification — it is flagged `lastSent`, and
+  `C08_latest_state_sent` says that this notification carries the latest state —,
+* or the pipe's last event is an *unsuccessful* response (a notification that is not 2.xx, be it
+  rendered or handed to `trigger`; the observer learns that its view is void),
+* or the resource's `render` raised (the suspended one that has now returned, or the one called
+  in this step); the observer gets the error response.
+So `lastSent` is not a flag that may or may not be set: a registration that ends with a 2.xx
+notification whose render did not raise is always covered by the latest-state guarantee. -/
+theorem C08_loop_end_kinds {c : State} (h : Inv c) {t : Task} (ht : t ∈ c.tasks)
+    (hp : t.phase = .waitTrig ∨ t.phase = .loopRender) (hnc : t.cancelReq = false)
+    (plan : Plan) (acc : Bool) {t' : Task}
+    (hf' : findTask (handle c (.step t.srv plan acc)).1 t.srv = some t') (hd : t'.phase = .done) :
+    t'.lastSent = true ∨
+    (∃ code body, Out.notify t.srv code none body true ∈ (handle c (.step t.srv plan acc)).2 ∧
+      success code = false) ∨
+    (∃ r, t.renderOut = some r ∧ r.exc = true) ∨ (∃ code, plan = .imm code true) := by
+  have hf := findTask_of_mem h.wf ht
+  have hself := handle_self_step hf plan acc
+  have ht' : t' = (stepTask c.value t plan acc).1 := by
+    have := hf'.symm.trans hself.2; exact Option.some.inj this
+  subst ht'
+  have htg : ∀ r, t.trig = some (some r) → r.exc = false :=
+    fun r hr => ((h.ok t ht).trigGood r hr).1
+  rcases stepTask_loop_end c.value t plan acc hp hnc htg hd with hl | ⟨code, body, hm, hs⟩ | hr
+  · exact Or.inl hl
+  · exact Or.inr (Or.inl ⟨code, body, by rw [hself.1]; exact exec_notify_mem _ _ _ _ _ _ _ hm, hs⟩)
+  · exact Or.inr (Or.inr hr)
 
 
 -- once ended: silent, callback exactly once -------------------------------------------------------------
@@ -483,36 +532,65 @@ theorem C08_count_restored {c : State} (h : Inv c) (sv : Nat) (es : List TEv)
   exact hperm.length_eq
 
 
-/-- **C08 (the ghost versions are real).** `sentVer`, used in `C08_latest_state_sent`, is not
-free-floating: whenever a step changes it, that step put a non-final notification with an Observe
-number and exactly that content version on the pipe; and every render started in a step samples
-the resource's state as it is at that step (so a render started after a change sees it). -/
+/-- **C08 (the ghost versions are real).** `sentVer` and `lastSent`, used in
+`C08_latest_state_sent`, are not free-floating.  Whenever a step of the task changes one of them,
+that step put a notification with exactly the content version `sentVer` on the pipe: a non-final
+one with an Observe number (`lastSent` unchanged), or — and only then does `lastSent` become true
+— the final one, without Observe option, marked last, with a successful code.  And every render
+started in a step samples the resource's state as it is at that step (so a render started after
+a change sees it). -/
 theorem C08_sent_version_was_notified {c : State} (h : Inv c) {t : Task} (ht : t ∈ c.tasks)
     (plan : Plan) (acc : Bool) :
     ∃ t', findTask (handle c (.step t.srv plan acc)).1 t.srv = some t' ∧
-      (t'.sentVer = t.sentVer ∨
-        ∃ code n, Out.notify t.srv code (some n) t'.sentVer false ∈ (handle c (.step t.srv plan acc)).2) ∧
+      ((t'.sentVer = t.sentVer ∧ t'.lastSent = t.lastSent) ∨
+       (t'.lastSent = t.lastSent ∧
+        ∃ code n, Out.notify t.srv code (some n) t'.sentVer false ∈ (handle c (.step t.srv plan acc)).2) ∨
+       (t'.lastSent = true ∧
+        ∃ code, success code = true ∧
+          Out.notify t.srv code none t'.sentVer true ∈ (handle c (.step t.srv plan acc)).2)) ∧
       ∀ ver, Out.render t.srv ver ∈ (handle c (.step t.srv plan acc)).2 → ver = c.value := by
   have hf := findTask_of_mem h.wf ht
   have hself := handle_self_step hf plan acc
   refine ⟨_, hself.2, ?_, ?_⟩
-  · rcases stepTask_sent c.value t plan acc with hs | ⟨code, n, hs⟩
+  · rcases stepTask_sent c.value t plan acc with hs | ⟨hl, code, n, hs⟩ | ⟨hl, code, hc, hs⟩
     · exact Or.inl hs
-    · exact Or.inr ⟨code, n, by rw [hself.1]; exact exec_notify_mem _ _ _ _ _ _ _ hs⟩
+    · exact Or.inr (Or.inl ⟨hl, code, n, by rw [hself.1]; exact exec_notify_mem _ _ _ _ _ _ _ hs⟩)
+    · exact Or.inr (Or.inr ⟨hl, code, hc, by rw [hself.1]; exact exec_notify_mem _ _ _ _ _ _ _ hs⟩)
   · intro ver hv
     rw [hself.1] at hv
     have := exec_render_inv _ _ _ _ _ hv
     exact stepTask_render c.value t plan acc ver this
 
+/-- … and no other event touches them: a datagram, a timer, an error, shutdown, a state change, a
+trigger, a deregistration, the end of a render, a step of *another* task leave `sentVer` and
+`lastSent` of registration `sv` as they are (a registration that does not exist yet counts as
+`(0, false)`, which is what a new task starts with). -/
+theorem C08_sent_version_only_moves_in_steps {c : State} (h : Inv c) (ev : Ev) (sv : Nat)
+    (hne : ∀ plan acc, ev ≠ .step sv plan acc) :
+    sentOf (handle c ev).1 sv = sentOf c sv :=
+  (Quiescent_handle h ev sv hne).sent
+
 /-
 Full statement of "no further notification is ever sent": once a registration has ended, no
 datagram carrying a notification of it is transmitted any more.  This is FALSE of the code (and of
-the model, which follows the code) in one situation, recorded as a known finding: a CON
-notification that was already handed to the message layer and is waiting in the backlog behind an
-unacknowledged CON to the same endpoint is still transmitted — and retransmitted — when that
-exchange finishes, even if the registration has been ended in between by a Reset or by a new
-request on the token (see the `decide` example below: message ID 501).  What holds, and is proved,
-is the statement at the boundary between the render task and the message layer:
+the model, which follows the code) for what the render task had handed to the message layer
+*before* the end — the token manager stops the pipe but has no means to take a message back from
+the message manager.  Two situations, both recorded as known findings:
+
+* `C08:queued-notification-sent-after-end` — a CON notification waiting in the per-remote backlog
+  behind an unacknowledged CON is still transmitted, and retransmitted, when that exchange
+  finishes, although the registration has been ended in between by a Reset or by a new request on
+  the token (see the `decide` example on `c08Run` below: message ID 501);
+* `C08:notification-retransmitted-after-end` — a CON notification that is in flight (transmitted,
+  not acknowledged) when the registration ends by a new request of the same endpoint on the same
+  token (deregistration, re-registration, plain GET) keeps being retransmitted, up to
+  `MAX_RETRANSMIT` more copies (`corpus/C08/notification-retransmitted-after-deregistration.json`;
+  `decide` example `c08RetxRun` below).  A Reset of that very notification, a transport error and
+  shutdown do remove the exchange; retransmissions of the registration's *final* notification are
+  not an exception but part of the property.
+
+What holds, and is proved, is the statement at the boundary between the render task and the
+message layer:
 -/
 /-- **C08 (nothing after the end — partial).** Once the task of a registration has ended, a step of
 it produces no output at all — no datagram, no render, no notification, no callback — and changes
@@ -588,5 +666,83 @@ example : (run c08Init (c08Run.take 9)).1.tasks.map (fun t => (t.cancelReq, t.ph
 example : ((run c08Init c08Run).1.tasks.map (fun t => (t.phase, t.cbRuns)),
     (run c08Init c08Run).1.observations, (run c08Init c08Run).1.ml.incoming.length) =
     ([(.done, 1)], [], 0) := by decide
+
+/-- what the examples below show of a run's outputs -/
+def c08Show (os : List Out) : List (String × Nat × Nat × Nat × Nat) :=
+  os.map fun o => match o with
+    | .net (.send t _ w) => ("send", t, w.mid, w.obs.getD 99, w.body)
+    | .net (.deliver sv _ _) => ("deliver", sv, 0, 0, 0)
+    | .net (.stop sv) => ("stop", sv, 0, 0, 0)
+    | .net _ => ("other", 0, 0, 0, 0)
+    | .count n => ("count", n, 0, 0, 0)
+    | .cancelled sv => ("cancelled", sv, 0, 0, 0)
+    | .render sv v => ("render", sv, v, 0, 0)
+    | .notify sv _ obs body il => ("notify", sv, obs.getD 99, body, if il then 1 else 0)
+
+/-- the input of the repaired defect: a registration; change 1, whose render suspends; change 2
+announced by `trigger(None | Message, is_last=True)` while that render is suspended; the render
+returns; one more change afterwards -/
+def c08LastRun (explicit : Option Nat) : List TEv :=
+  [⟨5, .recv 1 false (c08Get 70)⟩, ⟨5, .step 0 (.imm 69 false) true⟩,
+   ⟨100, .update none⟩, ⟨100, .step 0 .susp true⟩,
+   ⟨110, .trigger 0 explicit true⟩,
+   ⟨120, .release 0 69 false⟩, ⟨120, .step 0 (.imm 69 false) true⟩,
+   ⟨130, .update none⟩, ⟨130, .step 0 (.imm 69 false) true⟩]
+
+/-- the overtaken rendering (version 1) goes out as an ordinary notification, Observe 1, not last;
+the pending last-marked trigger is served in the same step: version 2 is rendered and put on the
+pipe as the final response (no Observe, last), the callback runs, the count is 0; the change after
+that produces nothing.  (The final response is a CON queued in the message layer behind the
+unacknowledged message 500.)  Before the fix the outputs ended `notify 0 - 1 last`. -/
+example : c08Show (run c08Init (c08LastRun none)).2 =
+  [("deliver", 0, 0, 0, 0), ("count", 1, 0, 0, 0), ("render", 0, 0, 0, 0), ("send", 5, 70, 0, 0),
+   ("notify", 0, 0, 0, 0), ("render", 0, 1, 0, 0), ("send", 120, 500, 1, 1), ("notify", 0, 1, 1, 0),
+   ("render", 0, 2, 0, 0), ("notify", 0, 99, 2, 1), ("cancelled", 0, 0, 0, 0), ("count", 0, 0, 0, 0)] := by
+  decide
+
+/-- the same with an explicit final message: it is that message (version 2) that ends the
+registration, nothing is rendered for it -/
+example : c08Show (run c08Init (c08LastRun (some 69))).2 =
+  [("deliver", 0, 0, 0, 0), ("count", 1, 0, 0, 0), ("render", 0, 0, 0, 0), ("send", 5, 70, 0, 0),
+   ("notify", 0, 0, 0, 0), ("render", 0, 1, 0, 0), ("send", 120, 500, 1, 1), ("notify", 0, 1, 1, 0),
+   ("notify", 0, 99, 2, 1), ("cancelled", 0, 0, 0, 0), ("count", 0, 0, 0, 0)] := by decide
+
+/-- while the render is suspended the last-marked trigger is pending (first case of
+`C08_latest_state_sent` before the render's result arrives); at the end the hypotheses of its third
+case are met: accepted, ended, flagged `lastSent`, and indeed `seen = sentVer = 2` -/
+example : ∃ t ∈ (run c08Init ((c08LastRun none).take 5)).1.tasks,
+    t.phase = .loopRender ∧ t.runnable = false ∧ t.late = true ∧ t.trig = some none ∧
+    t.seen = 2 ∧ t.renderVer = 1 := by decide
+example : ∃ t ∈ (run c08Init (c08LastRun none)).1.tasks,
+    t.observe = true ∧ t.accepted = true ∧ t.phase = .done ∧ t.runnable = false ∧
+    t.lastSent = true ∧ t.seen = 2 ∧ t.sentVer = 2 ∧ t.cbRuns = 1 := by decide
+
+/-- a change that arrives while the *final* render is suspended (the resource goes on after it said
+"last"): that rendering (version 1) is not the last either, version 2 is -/
+example : c08Show (run c08Init
+    [⟨5, .recv 1 false (c08Get 70)⟩, ⟨5, .step 0 (.imm 69 false) true⟩,
+     ⟨100, .trigger 0 none true⟩, ⟨100, .step 0 .susp true⟩, ⟨110, .update none⟩,
+     ⟨120, .release 0 69 false⟩, ⟨120, .step 0 (.imm 69 false) true⟩]).2 =
+  [("deliver", 0, 0, 0, 0), ("count", 1, 0, 0, 0), ("render", 0, 0, 0, 0), ("send", 5, 70, 0, 0),
+   ("notify", 0, 0, 0, 0), ("render", 0, 1, 0, 0), ("send", 120, 500, 1, 1), ("notify", 0, 1, 1, 0),
+   ("render", 0, 2, 0, 0), ("notify", 0, 99, 2, 1), ("cancelled", 0, 0, 0, 0), ("count", 0, 0, 0, 0)] := by
+  decide
+
+/-- the second exception to "nothing on the wire after the end" (known finding
+`C08:notification-retransmitted-after-end`): notification 500 is in flight, the observer
+deregisters on the token (GET Observe 1, answered at once), the timer of message 500 fires -/
+def c08RetxRun : List TEv :=
+  [⟨5, .recv 1 false (c08Get 70)⟩, ⟨5, .step 0 (.imm 69 false) true⟩,
+   ⟨100, .update none⟩, ⟨100, .step 0 (.imm 69 false) true⟩,
+   ⟨110, .recv 1 false { c08Get 71 with obs := some 1 }⟩, ⟨110, .step 0 .susp true⟩,
+   ⟨110, .step 1 (.imm 69 false) true⟩,
+   ⟨120, .fireRetransmit 1 500⟩]
+
+example : c08Show (run c08Init c08RetxRun).2 =
+  [("deliver", 0, 0, 0, 0), ("count", 1, 0, 0, 0), ("render", 0, 0, 0, 0), ("send", 5, 70, 0, 0),
+   ("notify", 0, 0, 0, 0), ("render", 0, 1, 0, 0), ("send", 100, 500, 1, 1), ("notify", 0, 1, 1, 0),
+   ("stop", 0, 0, 0, 0), ("deliver", 1, 0, 0, 0), ("cancelled", 0, 0, 0, 0), ("count", 0, 0, 0, 0),
+   ("render", 1, 1, 0, 0), ("send", 110, 71, 99, 1), ("notify", 1, 99, 1, 1),
+   ("send", 120, 500, 1, 1)] := by decide
 
 end Aiocoap.Observe.Server
